@@ -61,10 +61,13 @@ def main_cli():
             warning_control[new_warning_name] = value
 
 
-    report_handler = reports.FilterHandler({
-        "graphical": reports.GraphicalHandler,
-        "bare": reports.BareHandler
-    }[args.report_format](), warning_control)
+    if args.report_format == "bare":
+        # Diagnostics must not get into an image that is written to stdout
+        image_to_stdout = args.outfile is not None and (args.outfile == "-" or (args.outfile.startswith("-.") and "." not in args.outfile[2:]))
+        inner_handler = reports.BareHandler(to_stderr=image_to_stdout)
+    else:
+        inner_handler = reports.GraphicalHandler()
+    report_handler = reports.FilterHandler(inner_handler, warning_control)
 
 
     error = False
